@@ -85,6 +85,26 @@ func EksBlowfishSetup(cost uint, salt, key []byte) *Blowfish {
 	return st
 }
 
+// BcryptRawRounds is BcryptRaw with an explicit number of expensive key-schedule
+// rounds instead of 2^cost (0 = only the initial salted expansion).  It exists
+// to build "reduced-round forgeries": hash strings that claim a high cost but
+// whose digest was computed with a handful of rounds.
+func BcryptRawRounds(key, salt []byte, rounds uint64) []byte {
+	st := NewBlowfishState()
+	st.ExpandKey(salt, key)
+	for i := uint64(0); i < rounds; i++ {
+		st.ExpandKey(nil, key)
+		st.ExpandKey(nil, salt)
+	}
+	ctext := []byte("OrpheanBeholderScryDoubt")
+	for i := 0; i < 64; i++ {
+		for j := 0; j < 24; j += 8 {
+			st.Encrypt(ctext[j:j+8], ctext[j:j+8])
+		}
+	}
+	return ctext
+}
+
 // BcryptRaw returns the 24-byte ciphertext for key (already NUL-terminated
 // and/or truncated by the caller), 16-byte salt and cost.
 func BcryptRaw(key, salt []byte, cost uint) []byte {
